@@ -170,7 +170,12 @@ var trModes = []string{"i", "i1", "ie", "ic", "iu", "iL", "iS", "d", "i", "d1e"}
 
 func generate(out chan<- job) {
 	thorough := hx.Tier() == "thorough"
+	nEmit := 0
 	emit := func(tr, ep string, be, op hx.Sx) {
+		nEmit++
+		if tr == "i" { // in-process: rotate through the forms in which the response body is delivered
+			tr = trModes[nEmit%len(trModes)]
+		}
 		out <- job{c: caseIn{transport: tr, endpoint: ep, backend: be, op: op}}
 	}
 	emitSeq := func(tr, ep string, be hx.Sx, ops []hx.Sx) {
